@@ -26,7 +26,11 @@ def check_pair(S, rep, dim, nc):
     for which in ("gather_loop", "scatter_loop"):
         loops = R[which]
         ok = len(loops) == 1 and len(loops[0].range) == 1 and to_pw(loops[0].range[0]) == comm.N
-        rep.ob("C07.loop", "%s %s" % (lab, which), ok, "marker loop(s): %s" % [l.range for l in loops], key="C07.loop|%s|%s" % (lab, which), nontrivial=False)
+        serial = all(getattr(l, "iterator", "range") == "range" for l in loops)
+        if which == "scatter_loop":
+            ok = ok and serial          # accumulation into shared cells: contributions add up exactly only in a serial marker loop
+        rep.ob("C07.loop", "%s %s" % (lab, which), ok, "marker loop(s): %s over %s" % ([l.range for l in loops], [getattr(l, "iterator", "range") for l in loops]),
+               key="C07.loop|%s|%s|%s" % (lab, which, [getattr(l, "iterator", "range") for l in loops]), nontrivial=False)
     # ---- gather normal form
     comps = list(range(nc)) if nc > 1 else [None]
     g_by_comp = {}
